@@ -147,6 +147,8 @@ type clWorld struct {
 	sentDead  bool
 	calls     []*clCall
 	subs      []*clSub
+	idle      []chan []byte // subscriptions nobody reads (until the final observation)
+	idleLate  []bool
 	cbs       []*int64
 	cbLate    []bool
 	lost      bool // the connection has been closed or has failed for reading
@@ -451,6 +453,27 @@ func execCl(op string) func(a []string) string {
 				s.mu.Unlock()
 			}()
 			return "ok"
+		case "subidle":
+			// a subscriber that does not read: its queue fills up, what does not fit is dropped, nothing else waits
+			_, events, err := w.client.Subscribe(1, 1, uint32(900050+n(0)))
+			if err != nil {
+				return "err"
+			}
+			w.idle = append(w.idle, events)
+			w.idleLate = append(w.idleLate, w.lost)
+			return "ok"
+		case "flood":
+			if w.lost {
+				return "dead"
+			}
+			var frames []byte
+			for i := 1; i <= n(1); i++ {
+				p := make([]byte, 4)
+				binary.LittleEndian.PutUint32(p, uint32(2000+2*i))
+				h := qnet.Header{Magic: 0x42dead42, ID: uint32(2000 + 2*i), Size: 4, Type: qnet.Event, Service: 1, Object: 1, Action: uint32(900050 + n(0))}
+				frames = append(frames, wireOf(h, p)...)
+			}
+			return w.feed(frames)
 		case "ondisc":
 			var cnt int64
 			w.cbs = append(w.cbs, &cnt)
@@ -468,6 +491,29 @@ func execCl(op string) func(a []string) string {
 				}
 				parts = append(parts, fmt.Sprintf("sub=[%s]:%s", fmtIDs(s.got), st))
 				s.mu.Unlock()
+			}
+			for i, ch := range w.idle {
+				// now somebody reads: what was queued comes out, then — the connection being lost — the end
+				closed := make(chan struct{})
+				go func(ch chan []byte) {
+					for range ch {
+					}
+					close(closed)
+				}(ch)
+				st := "open"
+				wait := 30 * time.Millisecond
+				if w.lost && !w.idleLate[i] {
+					wait = clCeil()
+				}
+				select {
+				case <-closed:
+					st = "closed"
+				case <-time.After(wait):
+					if wait >= 100*time.Millisecond {
+						clHit()
+					}
+				}
+				parts = append(parts, "idle:"+st)
 			}
 			for _, c := range w.cbs {
 				parts = append(parts, fmt.Sprintf("cb=%d", atomic.LoadInt64(c)))
@@ -618,7 +664,7 @@ func clStorm(a []string) string {
 }
 
 func init() {
-	for _, op := range []string{"client", "replyid", "reset", "call", "wok", "wfail", "cancel", "reply", "event", "eventerr", "rfail", "close", "out", "peek", "sub", "ondisc", "final"} {
+	for _, op := range []string{"subidle", "flood", "client", "replyid", "reset", "call", "wok", "wfail", "cancel", "reply", "event", "eventerr", "rfail", "close", "out", "peek", "sub", "ondisc", "final"} {
 		executors["cl."+op] = execCl(op)
 	}
 	executors["cl.storm"] = func(a []string) string {
@@ -637,6 +683,7 @@ type clGen struct {
 	lost  bool
 	wdead bool
 	subs  []int
+	idle  []int
 }
 
 func runC11(r *Rand, tier string, o *Out) {
@@ -754,6 +801,17 @@ func runC11(r *Rand, tier string, o *Out) {
 				o.Do("P", fmt.Sprintf("cl.sub %d", a), true)
 				g.subs = append(g.subs, a)
 				o.Count("op:subscribe")
+			case k < 79 && (len(g.idle) > 0 || r.Chance(40)):
+				// a subscriber that does not read, and more events for it than its queue holds
+				if len(g.idle) < 2 && (len(g.idle) == 0 || r.Chance(30)) {
+					a := len(g.idle)
+					o.Do("P", fmt.Sprintf("cl.subidle %d", a), true)
+					g.idle = append(g.idle, a)
+					o.Count("op:subscribe-not-reading")
+				} else {
+					o.Do("P", fmt.Sprintf("cl.flood %d %d", g.idle[r.Intn(len(g.idle))], r.Pick(5, 60, 101, 102, 150, 260)), true)
+					o.Count("op:flood-unread-subscription")
+				}
 			case k < 82:
 				o.Do("P", "cl.ondisc", true)
 				o.Count("op:on-disconnect")
